@@ -14,6 +14,7 @@ import (
 
 	"verif/gen"
 	"verif/obs"
+	"verif/ref/refv4"
 	"verif/ref/refv6"
 )
 
@@ -238,3 +239,11 @@ func summarizeTree(m *refv6.Msg) any {
 }
 
 func encodeOptPayload(o *refv6.Opt) []byte { return refv6.EncodeOpt(o) }
+
+type refv4Packet = refv4.Packet
+
+func refv4Decode(b []byte) (*refv4.Packet, bool) {
+	p, why := refv4.Decode(b)
+	return p, why == refv4.OK
+}
+func refv4Canonical(c gen.V4Case) []byte { return refv4.Canonical(c.Ref()) }
